@@ -237,8 +237,11 @@ def configs_for(prop, tier):
                  conc=["weird", "plain"], depth=3, walks=6000, walklen=40),
             dict(name="objs-r3-k1", maxrefs=3, nkeys=1, maxlen=1, scalars=[("str", 1)], lits=[("L", []), OBJLIT], arglits=[2],
                  ops=["NewObject", "NewList"] + OBJ_MUT + OBJ_DER, conc=["weird"], depth=3, walks=6000),
-            dict(name="merge-r3-k2", maxrefs=3, nkeys=2, maxlen=2, scalars=[("int", 1), ("nil", 0)], argrefs=False,
+            dict(name="merge-r3-k2", maxrefs=3, nkeys=2, maxlen=2, scalars=[("int", 1), ("int", 2)], argrefs=False,
                  ops=["NewObject", "NewObject2", "Set", "Unset", "Merge", "Pluck", "Keys", "Values"], conc=["weird"], depth=3, walks=6000),
+            # keys that read like tree-form paths of each other (".a" next to "a")
+            dict(name="objs-dots", maxrefs=2, nkeys=3, maxlen=2, scalars=[("int", 1)], ops=["NewObject", "NewList", "Set", "Unset", "Pluck", "Keys"],
+                 conc=["dots"], depth=3, walks=3000),
         ]
         if q:
             return base
@@ -257,6 +260,11 @@ def configs_for(prop, tier):
                  obs="equals,getters", conc=["plain"], depth=3, walks=4000, walklen=20, invariants=["TypeOK", "AcyclicInv", "EqualsInv"]),
             dict(name="eq-r2-k2", maxrefs=2, nkeys=2, maxlen=3, scalars=eqs, ops=["NewList", "NewObject", "Add", "Set", "Unset", "Pop", "Replace"],
                  obs="equals,getters", conc=["weird"], depth=3, walks=4000, walklen=20, invariants=["TypeOK", "AcyclicInv", "EqualsInv"]),
+            dict(name="eq-lits", maxrefs=4, nkeys=1, maxlen=2, scalars=[("int", 1)], lits=[("L", []), ("O", {})], arglits=[1, 2], argrefs=False,
+                 ops=["NewList", "NewObject", "Add", "Set"], obs="equals", conc=["plain"], depth=3, walks=3000, walklen=12, invariants=["TypeOK", "AcyclicInv", "EqualsInv"]),
+            # adjacent float64 values (float tokens 4 and 5 under the extreme concretisation)
+            dict(name="eq-adjacent", maxrefs=3, nkeys=1, maxlen=2, scalars=[("float", 4), ("float", 5)], ops=["NewList", "NewObject", "Add", "Set"],
+                 obs="equals", conc=["extreme"], depth=3, walks=3000, walklen=12, invariants=["TypeOK", "AcyclicInv", "EqualsInv"]),
         ]
         if q:
             return base
@@ -274,6 +282,12 @@ def configs_for(prop, tier):
             dict(name="clone-derived-r5", maxrefs=5, buildrefs=2, nkeys=1, maxlen=2, scalars=[("int", 1)], slack=0,
                  ops=["NewList", "NewObject", "Clone", "CloneO", "SubList", "Concat", "FilterAll", "MapId", "Values", "Pluck", "Merge", "MapIdO"],
                  conc=["plain"], obs="equals", depth=4, walks=4000, walklen=12),
+            dict(name="clone-listof", maxrefs=3, nkeys=1, maxlen=3, scalars=[("int", 1), ("int", 2)], argrefs=False, slack=0,
+                 ops=["NewListOf", "Replace", "Clone", "Add", "Pop"], conc=["plain"], obs="equals", depth=3, walks=3000, walklen=15),
+            dict(name="clone-insert", maxrefs=2, nkeys=1, maxlen=4, scalars=[("int", 1), ("int", 2)], argrefs=False, slack=0,
+                 ops=["NewList", "NewList2", "Add", "Insert", "Clone", "Pop"], conc=["plain"], obs="equals", depth=4, walks=3000, walklen=15),
+            dict(name="clone-table", maxrefs=8, buildrefs=4, nkeys=1, maxlen=2, scalars=[("int", 1)], ops=["NewObject", "NewList2", "Clone"],
+                 conc=["plain"], obs="equals", depth=4, walks=3000, walklen=8),
             dict(name="clone-alias-r5", maxrefs=5, buildrefs=2, nkeys=1, maxlen=2, scalars=[("int", 1)],
                  ops=["NewList", "NewList2", "NewListOf", "NewObject", "Clone", "CloneO"],
                  conc=["plain"], obs="equals", depth=4, walks=2000, walklen=10),
@@ -292,8 +306,9 @@ def configs_for(prop, tier):
                  slack=0, argrefs=False, conc=["plain"], obs="getters,index,strings", depth=3, walks=20000, walklen=40),
             dict(name="derive-r2-l4", maxrefs=2, nkeys=1, maxlen=4, scalars=[("int", 1), ("int", 2)], ops=["NewList", "NewList2", "NewList3"] + LOPS,
                  slack=0, argrefs=False, conc=["extreme"], obs="getters,index", depth=3, walks=20000, walklen=50),
-            dict(name="derive-obj-r3", maxrefs=3, nkeys=2, maxlen=2, scalars=[("int", 1)], argrefs=False,
-                 ops=["NewObject", "Set", "Unset", "ClearO", "Keys", "Values", "Merge", "Pluck", "Dict", "MapIdO", "GoSet", "GoDelete", "Add", "Pop", "Sort"],
+            dict(name="derive-obj-r3", maxrefs=3, nkeys=2, maxlen=2, scalars=[("int", 1), ("int", 2)], argrefs=False,
+                 ops=["NewObject", "Set", "Unset", "ClearO", "Keys", "Values", "Merge", "Pluck", "Dict", "MapIdO", "GoSet", "GoDelete", "Add", "Pop", "Sort",
+                      "Replace", "Reverse", "Delete"],
                  conc=["weird"], obs="getters,index,strings", depth=3, walks=6000, walklen=40),
         ]
         if q:
@@ -326,6 +341,10 @@ def configs_for(prop, tier):
         base = [
             dict(name="tfwrite-r3", maxrefs=3, nkeys=1, maxlen=2, scalars=[("int", 1)], lits=[("L", [("int", 7)])], arglits=[1],
                  ops=WO, tfkeys=1, tfidx=1, tflen=2, tfread=2, conc=["tf"], obs="tf,getters", depth=3, walks=6000, walklen=25, obsevery=2),
+            # writes into lists whose element storage is shared with other lists (NewListOf, SubList, Concat)
+            dict(name="tfwrite-shared", maxrefs=2, nkeys=1, maxlen=3, scalars=[("int", 1), ("int", 2)], argrefs=False, slack=0,
+                 ops=["NewListOf", "NewList2", "SubList", "SetTF", "UnsetTF"], tfkeys=1, tfidx=2, tflen=1, tfread=1,
+                 conc=["tf"], obs="getters", depth=3, walks=3000, walklen=15),
         ]
         if q:
             return base
@@ -343,6 +362,11 @@ def configs_for(prop, tier):
         base = [
             dict(name="native-r3", maxrefs=3, nkeys=1, maxlen=2, scalars=[("int", 1)], ops=NO,
                  conc=["weird"], obs="getters", depth=3, walks=10000, walklen=30),
+            # a list directly inside a list that itself holds a container; repeated conversions around a nested change
+            dict(name="native-nest", maxrefs=6, buildrefs=3, nkeys=1, maxlen=1, scalars=[("int", 1)], ops=["NewList", "NewObject", "NativeSlice", "NativeDict"],
+                 conc=["plain"], obs="getters", depth=5, walks=2000, walklen=8),
+            dict(name="native-again", maxrefs=6, buildrefs=2, nkeys=1, maxlen=2, scalars=[("int", 1)], ops=["NewList", "NewObject", "Add", "NativeSlice", "NativeDict"],
+                 conc=["plain"], obs="getters", depth=5, walks=3000, walklen=10),
             # aliasing inside the converted container (one container stored twice)
             dict(name="native-alias-r5", maxrefs=5, buildrefs=2, nkeys=1, maxlen=2, scalars=[("int", 1)],
                  ops=["NewList", "NewList2", "NewListOf", "NewObject", "NativeSlice", "NativeDict", "Slice", "Dict"],
